@@ -244,6 +244,17 @@ func checkC14(r *Run) {
 			}
 			if err := pool.Call(map[string]interface{}{"op": "features", "code": string(res.Code), "goal": "script"}, &fr); err == nil && fr.OK && fr.Features[f] > 0 {
 				r.Violation("supported-false-not-honoured:"+f, fmt.Sprintf("supported:{%s:false} — the output still contains %d use(s) of the feature and no error was reported", f, fr.Features[f]), map[string]interface{}{"feature": f, "input": "featSource(all cases)", "output_excerpt": trunc(string(res.Code), 2000)})
+			} else if err == nil && !fr.OK {
+				// the output does not even parse at the latest edition: typically a dependent construct was left behind inside lowered code
+				pr, _ := pool.Parse(string(res.Code), "script", 0)
+				r.Violation("supported-false-output-invalid:"+f, fmt.Sprintf("supported:{%s:false} — the output is not valid JavaScript (acorn: %s; V8: %s)", f, errOf(pr.Acorn), errOf(pr.V8)), map[string]interface{}{"feature": f, "output_excerpt": trunc(string(res.Code), 3000)})
+			} else if err == nil && fr.OK {
+				// constructs that cannot exist without the feature must be gone too
+				for _, dep := range map[string][]string{"async-await": {"for-await", "async-generator"}, "class-field": {}, "class-private-field": {}}[f] {
+					if fr.Features[dep] > 0 {
+						r.Violation("supported-false-not-honoured:"+f+"⇒"+dep, fmt.Sprintf("supported:{%s:false} — the output still contains %s, which cannot be used without it", f, dep), map[string]interface{}{"feature": f, "dependent": dep})
+					}
+				}
 			}
 			r.Nontrivial("override-false:" + f)
 		} else {
@@ -278,4 +289,14 @@ func checkC14(r *Run) {
 	if st.gated < int64(r.pick(500, 5000)) {
 		r.Inconclusive(fmt.Sprintf("only %d outputs were gated", st.gated))
 	}
+}
+
+func errOf(v *ParseVerdict) string {
+	if v == nil {
+		return "n/a"
+	}
+	if v.OK {
+		return "accepts"
+	}
+	return v.Err
 }
